@@ -59,6 +59,8 @@ func init() {
 }
 
 func runC16(c *Ctx, r *Report) {
+	r.Rule("C16/child-stored", "every command the system transport starts is stored in the transport, where Close finds the process to signal", 1)
+	checkChildStored(c, r, "C16/child-stored")
 	importFoundation(c, r, "C16", "eof-chain")
 	r.Rule("C16/orderly-close", "no transport makes its Close abortive (SO_LINGER untouched): bytes accepted by Write reach the peer", 1)
 	checkNoAbortiveClose(c, r, "C16/orderly-close")
